@@ -256,6 +256,10 @@ func (s *Scanner) Scan(src interface{}) error {
 	switch {
 	case s.Tags.Contains("binary"):
 		b, ok := src.([]byte)
+		if str, isString := src.(string); isString {
+			// The change log hands the bytes of a BINARY / VARBINARY column over as a string.
+			b, ok = []byte(str), true
+		}
 		if !ok {
 			return fmt.Errorf("binary column must be of type []byte, got %T", src)
 		}
